@@ -219,17 +219,54 @@ async def run_e2e(job):
 
     # the order in which the master consumes what the device reports: every event when Slave.handle_event receives it (the
     # answers to the master's own GET requests are logged by the simulated device when they arrive)
-    orig_handle_event = slave.handle_event
+    def wrap_slave(sl):
+        orig_handle_event = sl.handle_event
 
-    async def logged_handle_event(event):
-        entry = [vloop.vtime_ms(), 'event', [copy.deepcopy(event)]]
-        sim.delivered.append(entry)
-        try:
-            return await orig_handle_event(event)
-        except Exception:
-            entry[1] = 'event-rejected'      # e.g. port-add of a port a resync has already added: not taken over
-            raise
-    slave.handle_event = logged_handle_event
+        async def logged_handle_event(event):
+            entry = [vloop.vtime_ms(), 'event', [copy.deepcopy(event)]]
+            sim.delivered.append(entry)
+            try:
+                return await orig_handle_event(event)
+            except Exception:
+                entry[1] = 'event-rejected'      # e.g. port-add of a port a resync has already added: not taken over
+                raise
+        sl.handle_event = logged_handle_event
+    wrap_slave(slave)
+
+    # a second slave whose name has the first one's name as a prefix (dev1 / dev10): each owns exactly its own ports
+    sim2 = slave2 = None
+    name2 = None
+    if job.get('second'):
+        name2 = job['second']['name']
+        sim2 = simslave.SimSlave(name2, job['second']['ports'], flags=['listen'], host='sim2',
+                                 latencies=[x / 1000.0 for x in job.get('lat', [10])])
+        sim2.base_path = ''
+        simslave.FakeAsyncHTTPClient.sims['sim2'] = sim2
+        r2 = await api_result(M.slaves_api.post_slave_devices(Handler('POST', '/api/devices'), params={
+            'scheme': 'http', 'host': 'sim2', 'port': 80, 'path': '/', 'admin_password': '', 'listen_enabled': True}))
+        if r2[0] != 'ok':
+            res['errors'].append('post_slave_devices (second slave): %r' % (r2,))
+        slave2 = M.slaves_devices.get(name2)
+
+    async def restart_master():
+        """save, drop the Slave and SlavePort objects, load the slaves again from the same store (slaves.devices.load())"""
+        nonlocal slave
+        for s in list(M.slaves_devices.get_all()):
+            await s.save()
+        await M.slaves_devices.cleanup()
+        for p in list(M.core_ports.get_all()):
+            if isinstance(p, M.slaves_ports.SlavePort):
+                await p.remove(persisted_data=False)
+        M.slaves_devices._slaves_by_name.clear()
+        await M.slaves_devices.load()
+        slave = M.slaves_devices.get(name)
+        if slave is None:
+            res['errors'].append('the slave is gone after the restart')
+            return
+        wrap_slave(slave)
+        await asyncio.sleep(0.12)
+        res.setdefault('restarts', []).append({'t': vloop.vtime_ms(), 'devices': await master_devices(M),
+                                               'req_index': len(sim.requests)})
 
     push_tasks = []
     if mode == 'push':
@@ -282,6 +319,12 @@ async def run_e2e(job):
             if mode == 'listen':             # the master's listen call is waiting at the device and nothing is queued for it
                 sess = sim.sessions.get(slave._listen_session_id)
                 ok = ok and sess is not None and not sess.queue and sess.future is not None and not sess.future.done()
+            if slave2 is not None:
+                sess2 = sim2.sessions.get(slave2._listen_session_id)
+                ok = ok and slave2.is_online() and slave2.is_ready() and sim2.inflight == 0
+                ok = ok and all(not p._remote_value_queue or not p.is_enabled() for p in M.core_ports.get_all()
+                                if p.get_id().startswith(name2 + '.'))
+                ok = ok and sess2 is not None and not sess2.queue and sess2.future is not None and not sess2.future.done()
             stable = stable + 0.25 if ok else 0.0
             if stable >= (2.0 if mode != 'push' else 4.0):
                 return True
@@ -310,6 +353,16 @@ async def run_e2e(job):
                 sim.add_port(args[0])
             elif kind == 'srm':
                 sim.remove_port(args[0])
+            elif kind == 'sdel':         # an optional attribute disappears from a port of the device
+                sim.del_port_attr(args[0], args[1])
+            elif kind == 'sddel':
+                sim.del_device_attr(args[0])
+            elif kind == 'sv2':          # value change on the second simulated slave
+                sim2.set_value(args[0], args[1])
+            elif kind == 'failreq':      # the next request matching args[0] fails with fault args[1] (one request only)
+                sim.one_shot.append({'m': args[0]['m'], 'p': args[0]['p'], 'skip': int(args[0].get('skip', 0)), 'fault': args[1]})
+            elif kind == 'restart':
+                await restart_master()
             elif kind == 'sd':
                 sim.set_device_attr(args[0], args[1])
             elif kind == 'sfull':
@@ -365,6 +418,9 @@ async def run_e2e(job):
                     'online': bool(slave.is_online()), 'req_index': len(sim.requests), 'vc_index': len(vc_log),
                     'delivered_index': len(sim.delivered),
                     'triggers_not_fired': [tr['op_index'] for tr in triggers if tr['armed']],
+                    'second': None if sim2 is None else {
+                        'name': name2, 'slave_ports': [sim2.port_json(p) for p in sim2.ports],
+                        'master_ports': await master_ports(M, name2)},
                 })
                 for tr in triggers:
                     tr['armed'] = False
@@ -383,6 +439,7 @@ async def run_e2e(job):
         await run_op(i, kind, args)
     res['requests'] = jsonable(sim.requests)
     res['slave_passwords'] = jsonable(sim.passwords)
+    res['failed_requests'] = jsonable(sim.failed_requests)
     res['refused_by_client'] = jsonable(simslave.FakeAsyncHTTPClient.refused_by_client)
     res['attempts'] = jsonable(simslave.FakeAsyncHTTPClient.attempts)
     res['delivered'] = jsonable(sim.delivered)
@@ -438,9 +495,10 @@ async def run_micro(job):
         n0 = len(sim.requests)
         c0 = len(simslave.FakeAsyncHTTPClient.attempts)
         try:
-            if kind in ('sv', 'sa', 'sadd', 'srm', 'sd', 'sfull'):
+            if kind in ('sv', 'sa', 'sadd', 'srm', 'sd', 'sfull', 'sdel', 'sddel'):
                 {'sv': sim.set_value, 'sa': sim.set_port_attr, 'sadd': sim.add_port, 'srm': sim.remove_port,
-                 'sd': sim.set_device_attr, 'sfull': sim.full_update}[kind](*args)
+                 'sd': sim.set_device_attr, 'sfull': sim.full_update, 'sdel': sim.del_port_attr,
+                 'sddel': sim.del_device_attr}[kind](*args)
             elif kind == 'deliver':          # hand the k oldest undelivered events to Slave.handle_event, like the listen loop
                 k = args[0]
                 evs, pending[:] = pending[:k], pending[k:]
